@@ -734,6 +734,17 @@ fn scale_spaces(thorough: bool) -> Vec<Space> {
         e4[n / 2] = T::Anon;
         deep.push(list(e4));
         deep.push(cplx("k", els.clone()));
+        // `$_` in every position / as the tail of a long list; a function term with n arguments
+        deep.push(cplx("k", (0..n).map(|_| T::Anon).collect()));
+        deep.push(list_t(els[..n - 1].to_vec(), T::Anon));
+        let mut e6 = els.clone();
+        e6[0] = T::Anon;
+        e6[n - 1] = T::Anon;
+        deep.push(cplx("k", e6));
+        if n <= 40 {
+            deep.push(func("add", els.clone()));
+            deep.push(T::Int((1..=n as i64).sum()));
+        }
         // n distinct fresh variables (ids above everything else in these spaces) facing n constants
         deep.push(cplx("k", (0..n).map(|i| var(600 + i, &format!("$W{}", i))).collect()));
         let mut e5 = els.clone();
